@@ -99,6 +99,115 @@ def writer_scenario(n, fail_at, tmp):
     return obs
 
 
+LEFT = ("raised", "leaked_files", "leaked_fds", "open_handles")
+
+
+# ---- one eval_* per kind of case, shared by run and replay_case; each returns (observation, failures[, stop])
+def eval_many_clean(n, cap, tmp):
+    """Fault-free sort with n // cap spill files."""
+    base = scenario(n, cap, True, None, None, tmp)
+    failures = []
+    if base["raised"] or base["leaked_files"] or base["leaked_fds"] or base["open_handles"] or len(base["output"]) != n:
+        failures.append({"what": "fault-free sort with %d spill files leaves resources behind or fails" % (n // cap), "kind": "clean-run",
+                         "n": n, "capacity": cap, "got": {k: base[k] for k in LEFT}, "scenario": "many-files"})
+    return base, failures
+
+
+def eval_many_fault(n, cap, k, call, tmp):
+    """The many-files sort with a fault at I/O call k (`call` is the name of that call in the fault-free run)."""
+    obs = scenario(n, cap, True, None, k, tmp)
+    failures = []
+    if obs["fired"] is not None and (obs["leaked_files"] or obs["leaked_fds"] or obs["open_handles"] or not obs["raised"]):
+        failures.append({"what": "fault at call %d (%s) of a %d-file sort: leak or swallowed failure" % (k, call, n // cap),
+                         "kind": "leak", "n": n, "capacity": cap, "got": {kk: obs[kk] for kk in LEFT},
+                         "scenario": "many-files", "fault_at": k, "call": call})
+    return obs, failures
+
+
+def eval_workload_clean(n, cap, sp, ab, tmp):
+    """Fault-free run of a workload (iterated twice unless abandoned).  stop = the workload is not explored further."""
+    base = scenario(n, cap, sp, ab, None, tmp, reiterate=(ab is None))
+    where = {"n": n, "capacity": cap, "always_spill": sp, "abandon_after": ab}
+    if base["raised"] or base["leaked_files"] or base["leaked_fds"] or base["open_handles"]:
+        return base, [dict(where, what="fault-free sort leaves resources behind or fails", kind="clean-run",
+                           got={k: base[k] for k in LEFT}, scenario="workload")], True
+    failures = []
+    if ab is None and (base["output"] != sorted(base["output"]) or len(base["output"]) != n or base.get("output2") != base["output"]):
+        failures.append(dict(where, what="fault-free sort is wrong", kind="clean-run", scenario="workload"))
+    return base, failures, False
+
+
+def eval_workload_fault(n, cap, sp, ab, k, call, tmp):
+    """A workload with a fault at I/O call k (`call` is the name of that call in the fault-free run)."""
+    obs = scenario(n, cap, sp, ab, k, tmp)
+    w2 = {"n": n, "capacity": cap, "always_spill": sp, "abandon_after": ab, "fault_at": k, "call": call}
+    failures = []
+    if obs["fired"] is None:
+        return obs, failures
+    if not obs["raised"]:
+        failures.append(dict(w2, what="the injected I/O failure never reached the caller", kind="swallowed", phase=obs["phase"], scenario="workload"))
+    elif any(not r[1].startswith("OSError") for r in obs["raised"]):
+        failures.append(dict(w2, what="a failure other than the I/O error escaped", kind="other-exception", got=obs["raised"], scenario="workload"))
+    if obs["leaked_files"] or obs["leaked_fds"] or obs["open_handles"]:
+        failures.append(dict(w2, what="after close(): %d spill file(s), %d descriptor(s), %d open gzip handle(s) left behind" % (
+            obs["leaked_files"], obs["leaked_fds"], len(obs["open_handles"])), kind="leak", raised=obs["raised"], scenario="workload"))
+    return obs, failures
+
+
+def eval_writer_clean(n, tmp):
+    """Fault-free sorting writer over n records."""
+    base = writer_scenario(n, None, tmp)
+    failures = []
+    if base["raised"] or base["lines"] != n:
+        failures.append({"what": "fault-free sorting writer is wrong", "kind": "clean-run", "got": base, "scenario": "writer", "n": n})
+    return base, failures
+
+
+def eval_writer_fault(n, k, call, tmp):
+    """The sorting writer with a fault at I/O call k."""
+    obs = writer_scenario(n, k, tmp)
+    failures = []
+    if obs["fired"] is not None and obs["raised"] is None and obs["lines"] != n:
+        failures.append({"what": "writer.close() returned normally but the output holds %d of %d records" % (obs["lines"], n),
+                         "kind": "writer-incomplete", "n": n, "fault_at": k, "call": call, "scenario": "writer"})
+    return obs, failures
+
+
+# ---- correspondence with the Lean effect model
+def model_request(n, cap, sp, ab, k):
+    r = {"op": "sorter.faults", "n": n, "cap": cap, "always_spill": sp}
+    if ab is not None:
+        r["abandon"] = ab
+    if k is not None:
+        r["fail_at"] = k
+    return r
+
+
+def impl_view(obs):
+    """The observation of one scenario in the vocabulary of the effect model."""
+    return {"calls": obs["calls"], "raised": [list(x) for x in obs["raised"]],
+            "output": [x[0] for x in obs["output"]] if obs["output"] is not None else None,
+            "fired": obs["fired"] is not None, "leaked_files": obs["leaked_files"], "leaked_fds": obs["leaked_fds"],
+            "open_handles": len(obs["open_handles"])}
+
+
+def compare_model(m, i, wl):
+    """None when the model's answer equals the implementation's view, else the disagreement dict."""
+    if m == i:
+        return None
+    keys = [k for k in m if m[k] != i.get(k)]
+    d = {"op": "sorter.faults", "workload": wl, "differs": keys}
+    if "calls" in keys:
+        j = next((x for x in range(min(len(m["calls"]), len(i["calls"]))) if m["calls"][x] != i["calls"][x]), min(len(m["calls"]), len(i["calls"])))
+        d["calls_differ_at"] = j
+        d["model_calls"] = m["calls"][j:j + 5]
+        d["impl_calls"] = i["calls"][j:j + 5]
+    for k in keys:
+        if k != "calls":
+            d["model_" + k], d["impl_" + k] = m[k], i.get(k)
+    return d
+
+
 def run(ctx):
     out = Outcome()
     out.rule = ("workloads (n records, capacity, spill policy, optional early abandonment after j items, optional second iteration); a fault-free run fixes the sequence of I/O calls "
@@ -115,34 +224,27 @@ def run(ctx):
         # many spill files (more than any plausible per-process descriptor budget heuristics): fault-free and a few faults
         for (n, cap) in [(300, 2), (450, 3)]:
             out.evaluations += 1
-            base = scenario(n, cap, True, None, None, tmp)
-            if base["raised"] or base["leaked_files"] or base["leaked_fds"] or base["open_handles"] or len(base["output"]) != n:
-                out.failures.append({"what": "fault-free sort with %d spill files leaves resources behind or fails" % (n // cap), "kind": "clean-run",
-                                     "n": n, "capacity": cap, "got": {k: base[k] for k in ("raised", "leaked_files", "leaked_fds", "open_handles")}})
+            base, failures = eval_many_clean(n, cap, tmp)
+            out.failures += failures
             for k in sorted(rng.sample(range(len(base["calls"])), 6)):
                 out.evaluations += 1
-                obs = scenario(n, cap, True, None, k, tmp)
-                if obs["fired"] is not None and (obs["leaked_files"] or obs["leaked_fds"] or obs["open_handles"] or not obs["raised"]):
-                    out.failures.append({"what": "fault at call %d (%s) of a %d-file sort: leak or swallowed failure" % (k, base["calls"][k], n // cap),
-                                         "kind": "leak", "n": n, "capacity": cap, "got": {kk: obs[kk] for kk in ("raised", "leaked_files", "leaked_fds", "open_handles")}})
+                obs, failures = eval_many_fault(n, cap, k, base["calls"][k], tmp)
+                out.failures += failures
                 out.nontrivial.add(("many-files", n, cap, k))
         for (n, cap, sp, ab) in workloads:
             out.evaluations += 1
-            base = scenario(n, cap, sp, ab, None, tmp, reiterate=(ab is None))
-            where = {"n": n, "capacity": cap, "always_spill": sp, "abandon_after": ab}
-            if base["raised"] or base["leaked_files"] or base["leaked_fds"] or base["open_handles"]:
-                out.failures.append(dict(where, what="fault-free sort leaves resources behind or fails", kind="clean-run",
-                                         got={k: base[k] for k in ("raised", "leaked_files", "leaked_fds", "open_handles")}))
+            base, failures, stop = eval_workload_clean(n, cap, sp, ab, tmp)
+            out.failures += failures
+            if stop:
                 continue
-            if ab is None and (base["output"] != sorted(base["output"]) or len(base["output"]) != n or base.get("output2") != base["output"]):
-                out.failures.append(dict(where, what="fault-free sort is wrong", kind="clean-run"))
+            where = {"n": n, "capacity": cap, "always_spill": sp, "abandon_after": ab}
             ncalls = len(base["calls"])
             out.distribution["io_calls"] += ncalls
             corr.append(((n, cap, sp, ab, None), scenario(n, cap, sp, ab, None, tmp)))
             positions = range(ncalls) if (ctx.tier == "thorough" or ncalls <= 60) else sorted(rng.sample(range(ncalls), 60))
             for k in positions:
                 out.evaluations += 1
-                obs = scenario(n, cap, sp, ab, k, tmp)
+                obs, failures = eval_workload_fault(n, cap, sp, ab, k, base["calls"][k], tmp)
                 corr.append(((n, cap, sp, ab, k), obs))
                 w2 = dict(where, fault_at=k, call=base["calls"][k])
                 fault_positions.append((n, cap, sp, ab, k, base["calls"][k]))
@@ -150,62 +252,123 @@ def run(ctx):
                 if obs["fired"] is None:
                     out.distribution["fault-not-reached"] += 1
                     continue
-                if not obs["raised"]:
-                    out.failures.append(dict(w2, what="the injected I/O failure never reached the caller", kind="swallowed", phase=obs["phase"]))
-                elif any(not r[1].startswith("OSError") for r in obs["raised"]):
-                    out.failures.append(dict(w2, what="a failure other than the I/O error escaped", kind="other-exception", got=obs["raised"]))
-                if obs["leaked_files"] or obs["leaked_fds"] or obs["open_handles"]:
-                    out.failures.append(dict(w2, what="after close(): %d spill file(s), %d descriptor(s), %d open gzip handle(s) left behind" % (
-                        obs["leaked_files"], obs["leaked_fds"], len(obs["open_handles"])), kind="leak", raised=obs["raised"]))
+                out.failures += failures
                 out.distribution["fault:" + base["calls"][k].split("(")[0]] += 1
             if len(out.samples) < 2 and ncalls > 10:
                 out.sample(dict(where, io_calls=base["calls"][:14], n_calls=ncalls))
         # a sorting writer: close() returning normally means every record is in the output
         for n in (3, 5):
-            base = writer_scenario(n, None, tmp)
-            if base["raised"] or base["lines"] != n:
-                out.failures.append({"what": "fault-free sorting writer is wrong", "kind": "clean-run", "got": base})
+            base, failures = eval_writer_clean(n, tmp)
+            out.failures += failures
+            if failures:
                 continue
             for k in range(len(base["calls"])):
                 out.evaluations += 1
-                obs = writer_scenario(n, k, tmp)
+                obs, failures = eval_writer_fault(n, k, base["calls"][k], tmp)
                 if obs["fired"] is None:
                     continue
-                if obs["raised"] is None and obs["lines"] != n:
-                    out.failures.append({"what": "writer.close() returned normally but the output holds %d of %d records" % (obs["lines"], n),
-                                         "kind": "writer-incomplete", "n": n, "fault_at": k, "call": base["calls"][k]})
+                out.failures += failures
                 out.nontrivial.add(("writer", n, k))
     # correspondence: the effect model predicts the exact I/O call sequence, what is raised in which phase, and what is left
-    reqs = []
-    for (n, cap, sp, ab, k), obs in corr:
-        r = {"op": "sorter.faults", "n": n, "cap": cap, "always_spill": sp}
-        if ab is not None:
-            r["abandon"] = ab
-        if k is not None:
-            r["fail_at"] = k
-        reqs.append(r)
+    reqs = [model_request(*wl) for wl, _obs in corr]
     mo = ctx.driver.run(reqs)
     for r, m, (wl, obs) in zip(reqs, mo, corr):
-        i = {"calls": obs["calls"], "raised": [list(x) for x in obs["raised"]],
-             "output": [x[0] for x in obs["output"]] if obs["output"] is not None else None,
-             "fired": obs["fired"] is not None, "leaked_files": obs["leaked_files"], "leaked_fds": obs["leaked_fds"],
-             "open_handles": len(obs["open_handles"])}
-        if m != i:
-            keys = [k for k in m if m[k] != i.get(k)]
-            d = {"op": "sorter.faults", "workload": wl, "differs": keys}
-            if "calls" in keys:
-                j = next((x for x in range(min(len(m["calls"]), len(i["calls"]))) if m["calls"][x] != i["calls"][x]), min(len(m["calls"]), len(i["calls"])))
-                d["calls_differ_at"] = j
-                d["model_calls"] = m["calls"][j:j + 5]
-                d["impl_calls"] = i["calls"][j:j + 5]
-            for k in keys:
-                if k != "calls":
-                    d["model_" + k], d["impl_" + k] = m[k], i.get(k)
+        d = compare_model(m, impl_view(obs), wl)
+        if d is not None:
             out.disagreements.append(d)
     out.extra["traces_compared_with_model"] = len(reqs)
     out.extra["fault_positions"] = len(fault_positions)
     out.extra["fault_position_samples"] = fault_positions[:8]
     return out
+
+
+def _show(tag, v):
+    print("%s raised=%s leaked_files=%s leaked_fds=%s open_handles=%s fault_fired=%s; %d I/O call(s)" % (
+        tag, v.get("raised"), v.get("leaked_files"), v.get("leaked_fds"), v.get("open_handles"), v.get("fired"), len(v.get("calls") or [])))
+
+
+def _calls_around(calls, k):
+    lo = max(0, (k or 0) - 3)
+    return "calls[%d:%d] = %s" % (lo, lo + 8, calls[lo:lo + 8])
+
+
+def replay_case(ctx, failure):
+    """Re-evaluate the stored failing input on the current implementation; return the list of failure dicts it
+    produces now (empty list = the property holds on that input)."""
+    f = failure
+    kind = f.get("kind")
+    sc = f.get("scenario")
+    if sc is None:                       # files written before the field existed
+        if "always_spill" in f:
+            sc = "workload"
+        elif kind == "writer-incomplete":
+            sc = "writer"
+        elif "capacity" in f:
+            sc = "many-files"
+    n, cap, k = f.get("n"), f.get("capacity"), f.get("fault_at")
+    if not isinstance(n, int):
+        return None
+    with tempfile.TemporaryDirectory() as tmp:
+        if sc == "many-files" and isinstance(cap, int):
+            if kind == "clean-run":
+                print("executed: fault-free sort of %d records, capacity %d, always_spill (%d spill files), then close()" % (n, cap, n // cap))
+                obs, failures = eval_many_clean(n, cap, tmp)
+                print("implementation: %d item(s) returned" % len(obs["output"] or []))
+            elif kind == "leak" and isinstance(k, int):
+                print("executed: sort of %d records, capacity %d, always_spill (%d spill files), OSError injected at I/O call %d (%s in the fault-free run), then close() (retried on failure)" % (
+                    n, cap, n // cap, k, f.get("call")))
+                obs, failures = eval_many_fault(n, cap, k, f.get("call"), tmp)
+                print("implementation: %s" % _calls_around(obs["calls"], k))
+            else:
+                return None
+            _show("implementation:", dict(obs, open_handles=len(obs["open_handles"])))
+        elif sc == "workload" and isinstance(cap, int) and "always_spill" in f:
+            sp, ab = f["always_spill"], f.get("abandon_after")
+            desc = "%d records, capacity %d, always_spill=%s, %s" % (n, cap, sp, "iteration abandoned after %d item(s)" % ab if ab is not None else "iterated to the end")
+            if kind == "clean-run":
+                print("executed: fault-free sort (%s%s), then close()" % (desc, ", iterated a second time" if ab is None else ""))
+                obs, failures, _stop = eval_workload_clean(n, cap, sp, ab, tmp)
+                print("implementation: output keys %s%s" % ([x[0] for x in obs["output"]] if obs["output"] is not None else None,
+                                                            "; second iteration %s" % ("equal" if obs.get("output2") == obs["output"] else "differs") if ab is None else ""))
+                mobs, k = scenario(n, cap, sp, ab, None, tmp), None      # the trace compared with the model is that of a single iteration
+            elif kind in ("swallowed", "other-exception", "leak") and isinstance(k, int):
+                print("executed: sort (%s) with OSError injected at I/O call %d (%s in the fault-free run), then close() (retried on failure)" % (desc, k, f.get("call")))
+                obs, failures = eval_workload_fault(n, cap, sp, ab, k, f.get("call"), tmp)
+                print("implementation: %s" % _calls_around(obs["calls"], k))
+                mobs = obs
+            else:
+                return None
+            _show("implementation:", dict(obs, open_handles=len(obs["open_handles"])))
+            if ctx.driver.available():
+                try:
+                    m = ctx.driver.run([model_request(n, cap, sp, ab, k)])[0]
+                    _show("model:         ", m)
+                    d = compare_model(m, impl_view(mobs), (n, cap, sp, ab, k))
+                    if d is None:
+                        print("model vs implementation: the I/O trace, what is raised and what is left behind agree exactly")
+                    else:
+                        print("model vs implementation: differ in %s %s" % (d["differs"], {x: d[x] for x in d if x.startswith("model_") or x.startswith("impl_") or x == "calls_differ_at"}))
+                except Exception as e:  # noqa
+                    print("model: driver failed (%s)" % str(e)[:200])
+        elif sc == "writer":
+            if kind == "clean-run":
+                print("executed: fault-free sorting MafWriter (assume_sorted=False, Coordinate) over %d records, then close()" % n)
+                obs, failures = eval_writer_clean(n, tmp)
+            elif kind == "writer-incomplete" and isinstance(k, int):
+                print("executed: sorting MafWriter over %d records with OSError injected at I/O call %d (%s in the fault-free run), then close()" % (n, k, f.get("call")))
+                obs, failures = eval_writer_fault(n, k, f.get("call"), tmp)
+            else:
+                return None
+            print("implementation: raised=%s, %d of %d record line(s) in the output, fault_fired=%s, leaked_files=%s leaked_fds=%s" % (
+                obs["raised"], obs["lines"], n, obs["fired"], obs["leaked_files"], obs["leaked_fds"]))
+        else:
+            return None
+    for g in failures:
+        print("oracle: [%s] %s" % (g["kind"], g["what"]))
+    if not failures:
+        print("oracle: satisfied (%s)" % ("the fault did not fire on this tree" if isinstance(k, int) and obs.get("fired") is None else "failure reported to the caller, nothing left behind"
+                                          if isinstance(k, int) and sc != "writer" else "nothing left behind, output complete"))
+    return failures
 
 
 def search(ctx):
